@@ -171,7 +171,12 @@ pub fn check_conflict_graph(u: &Universe, ix: &Index, p: &Problem, g: &GraphData
                     detail: format!("unknown locked solvable {lsid}"),
                 })?;
                 let pk = &u.packages[y.pkg];
-                if l.pkg != y.pkg || !l.listed || pk.locked != Some(l.idx) || !y.listed || y == l {
+                let is_lock = if pk.lock_gone {
+                    !l.listed && l.idx + 1 == pk.unlisted.len()
+                } else {
+                    l.listed && pk.locked == Some(l.idx)
+                };
+                if l.pkg != y.pkg || !is_lock || !y.listed || y == l {
                     return fail(
                         "lock-edge",
                         format!("{} is not locked out by {}", name_of(*dst), u.display_solvable(l)),
